@@ -16,7 +16,12 @@ from scipy import sparse
 
 import pyttb as ttb
 from pyttb import pyttb_utils as ttb_utils
-from pyttb.pyttb_utils import OneDArray, parse_one_d, to_memory_order
+from pyttb.pyttb_utils import (
+    OneDArray,
+    as_float_if_needed,
+    parse_one_d,
+    to_memory_order,
+)
 
 ALT_CORE_ERROR = "TTensor doesn't support non-tensor cores yet. Only tensor/sptensor."
 
@@ -219,9 +224,17 @@ class ttensor:
         """
         return self.full()
 
+    def _real_factors(self) -> List[np.ndarray]:
+        """Factor matrices as real numbers for use in products.
+
+        Integer, boolean or single precision storage must not wrap around or
+        saturate in the sums of products.
+        """
+        return [as_float_if_needed(factor) for factor in self.factor_matrices]
+
     def full(self) -> ttb.tensor:
         """Convert a ttensor to a (dense) tensor."""
-        recomposed_tensor = self.core.ttm(self.factor_matrices)
+        recomposed_tensor = self.core.ttm(self._real_factors())
 
         # There is a small chance tensor could be sparse so cast that to dense.
         if not isinstance(recomposed_tensor, ttb.tensor):
@@ -316,7 +329,7 @@ class ttensor:
                 return other.innerprod(self)
             W = []
             for this_factor, other_factor in zip(
-                self.factor_matrices, other.factor_matrices
+                self._real_factors(), other._real_factors()
             ):
                 W.append(this_factor.transpose().dot(other_factor))
             J = other.core.ttm(W)
@@ -331,7 +344,7 @@ class ttensor:
             if np.prod(self.shape) < np.prod(self.core.shape):
                 Z: Union[ttb.tensor, ttb.sptensor] = self.full()
                 return Z.innerprod(other)
-            Z = other.ttm(self.factor_matrices, transpose=True)
+            Z = other.ttm(self._real_factors(), transpose=True)
             return Z.innerprod(self.core)
         if isinstance(other, ttb.ktensor):
             # Call ktensor implementation
@@ -412,9 +425,10 @@ class ttensor:
 
         # Create W to multiply with core, only populated remaining dims
         W = [np.empty(())] * self.ndims
+        factors = self._real_factors()
         for i in range(dims.size):
             dim_idx = dims[i]
-            W[dim_idx] = self.factor_matrices[dim_idx].transpose().dot(vector[vidx[i]])
+            W[dim_idx] = factors[dim_idx].transpose().dot(vector[vidx[i]])
 
         # Create new core
         newcore = self.core.ttv(W, dims)
@@ -447,15 +461,16 @@ class ttensor:
 
         W = [np.empty((), order=self.order)] * self.ndims
         U = ttb_utils.get_mttkrp_factors(U, n, self.ndims)
+        factors = self._real_factors()
         for i in range(0, self.ndims):
             if i == n:
                 continue
-            W[i] = self.factor_matrices[i].transpose().dot(U[i])
+            W[i] = factors[i].transpose().dot(U[i])
 
         Y = self.core.mttkrp(W, n)
 
         # Find each column of answer by multiplying by weights
-        return to_memory_order(self.factor_matrices[n].dot(Y), self.order)
+        return to_memory_order(factors[n].dot(Y), self.order)
 
     def norm(self) -> float:
         """
@@ -467,7 +482,7 @@ class ttensor:
         """
         if np.prod(self.shape) > np.prod(self.core.shape):
             V = []
-            for factor in self.factor_matrices:
+            for factor in self._real_factors():
                 V.append(factor.transpose().dot(factor))
             Y = self.core.ttm(V)
             tmp = Y.innerprod(self.core)
@@ -544,7 +559,7 @@ class ttensor:
                 raise ValueError(f"Multiplicand {i} is wrong size")
 
         # Do the actual multiplications in the specified modes.
-        new_u = self.factor_matrices.copy()
+        new_u = self._real_factors()
         for i, dim in enumerate(dims):
             if transpose:
                 new_u[dim] = matrix[vidx[i]].transpose().dot(new_u[dim])
@@ -626,7 +641,9 @@ class ttensor:
                 len(full_samples[k].shape) == 2
                 and full_samples[k].shape[-1] == shape[k]
             ):
-                new_u.append(full_samples[k].dot(self.factor_matrices[k]))
+                new_u.append(
+                    full_samples[k].dot(as_float_if_needed(self.factor_matrices[k]))
+                )
             else:
                 new_u.append(self.factor_matrices[k][full_samples[k], :])
 
